@@ -1,8 +1,8 @@
 (* Properties_C12.v — C12: start leaves the caller's signal state untouched; the child starts
    clean.  Theorems only: the regenerated bounds of the signal reset loop and the mask-set used
-   around fork; that every return path restores mask / dispositions / cwd / environment is
-   decided by the tie (masks x dispositions x single-fault enumeration of start). *)
-From Verif Require Import Lib WorldSpec WorldSpec2 LibSpec LibSpec2 ChildSpec Build.
+   around fork; the child side (C12_child_clean); the parent side on every return path and for
+   every fault plan (C12_start_restores_caller).  Proofs are in ChildSpec.v / ParentSpec.v. *)
+From Verif Require Import Lib WorldSpec WorldSpec2 LibSpec LibSpec2 ChildSpec ParentSpec OptSpec Build.
 From Coq Require Import Lia.
 Local Open Scope Z_scope.
 
@@ -59,6 +59,72 @@ Theorem C12_child_clean : forall M D C E fprd fpwr sprd spwr av pg env o (k : MW
   end.
 Proof. exact child_image_signals_and_launch. Qed.
 Print Assumptions C12_child_clean.
+
+(* THE PARENT SIDE, every return path, EVERY FAULT PLAN: whenever reproc_start returns in the
+   caller -- success or failure, whatever calls the fault plan makes fail (EINTR, ENOMEM, EMFILE,
+   ... at any call index, any number of them), whatever latencies, whatever the forked child and
+   all other processes do meanwhile -- the caller's signal dispositions, working directory and
+   environment are exactly what they were, and so is its signal mask, unless the fault plan made a
+   pthread_sigmask call itself fail (then that failed call is in the trace).  [w] is any
+   well-formed world whose current process has a non-negative pid and a mask in the form
+   pthread_sigmask reports it (C12_mask_canonical: every mask the kernel model installs is). *)
+Theorem C12_start_restores_caller : forall p argv o src (ck : rp -> MW unit) w r p' w',
+  WorldSpec2.wf w -> 0 <= w_cur w -> (forall q, kp (w_cur w) (ck q)) ->
+  norm_mask (pr_mask (curp w)) = pr_mask (curp w) ->
+  reproc_start p argv o src ck w = Ret (r, p') w' ->
+  w_cur w' = w_cur w /\
+  pr_disp (curp w') = pr_disp (curp w) /\ pr_cwd (curp w') = pr_cwd (curp w) /\ pr_env (curp w') = pr_env (curp w) /\
+  (pr_mask (curp w') = pr_mask (curp w) \/
+   exists l ev, w_trace w' = l ++ w_trace w /\ In ev l /\ e_call ev = CSigmask /\ 0 < e_ret ev).
+Proof.
+  intros p argv o src ck w r p' w' W Hp Hk Hc E.
+  destruct (reproc_start_restores p argv o src ck w r p' w' W Hp Hk Hc E) as [(_ & C & (D & Cw & En) & _) R].
+  repeat split; assumption.
+Qed.
+Print Assumptions C12_start_restores_caller.
+
+(* the same for the two layers below (process_start, process_fork), which is where the mask is
+   blocked and restored *)
+Theorem C12_process_fork_restores : forall except ck w r w',
+  WorldSpec2.wf w -> 0 <= w_cur w -> kp (w_cur w) ck -> norm_mask (pr_mask (curp w)) = pr_mask (curp w) ->
+  process_fork except ck w = Ret r w' ->
+  pq w w' /\ Rst (pr_mask (curp w)) (w_trace w) w'.
+Proof. exact process_fork_restores. Qed.
+Print Assumptions C12_process_fork_restores.
+
+(* whatever library code a forked child runs -- the whole child side of fork and start, to exec,
+   _exit or a fork-mode return -- never touches the record of another process *)
+Theorem C12_child_code_is_framed : forall k prd pwr except sprd spwr argv pg env o kk,
+  kp k kk -> kp k (fork_child_part prd pwr except (start_child_part sprd spwr argv pg env o kk)).
+Proof. intros. apply kp_fork_child_part, kp_start_child_part. assumption. Qed.
+Print Assumptions C12_child_code_is_framed.
+
+Theorem C12_mask_canonical : forall s, norm_mask (norm_mask s) = norm_mask s.
+Proof. exact norm_mask_idem. Qed.
+Print Assumptions C12_mask_canonical.
+
+(* non-vacuity: a real start (default options: three pipes; program found; SIGTERM blocked and
+   SIGINT ignored in the caller; a close failed by the plan after the fork) meets every premise,
+   returns, and the mask is [SIGTERM] again *)
+Definition C12_ex_prog : str := [47; 116].
+Definition C12_ex_world : world :=
+  build_world 1000 0 7 [(0, {| f_obj := OExt 1 ARd; f_cloexec := false; f_nonblock := false |})]
+              [15] [(2, DIgnore)] [47] [] 64 [([47], FDir); (C12_ex_prog, FExec [])] [(150, 5%positive)] [] std_files.
+Example C12_ex_start :
+  let w := C12_ex_world in
+  WorldSpec2.wf w /\ 0 <= w_cur w /\ (forall q : rp, kp (w_cur w) (ret tt)) /\ norm_mask (pr_mask (curp w)) = pr_mask (curp w) /\
+  match reproc_start (rp_new 1) (Some [C12_ex_prog]) options_zero 0 (fun _ => ret tt) w with
+  | Ret (r, p') w' => (r =? 1) && bool_decide (pr_mask (curp w') = [15]) && bool_decide (pr_mask (curp w) = [15])
+  | _ => false
+  end = true.
+Proof.
+  cbn zeta. split.
+  { split.
+    - eexists. split; [apply lookup_singleton|]. split; reflexivity.
+    - intros k [x Hk]. cbn in Hk. apply lookup_singleton_Some in Hk. destruct Hk as [<- _]. cbn. lia. }
+  split; [cbn; lia|]. split; [intros _; apply kp_ret|]. split; [vm_compute; reflexivity|].
+  vm_compute. reflexivity.
+Qed.
 
 (* non-vacuity: a world whose current process blocks SIGTERM and ignores SIGINT satisfies the premise *)
 Example C12_ex_state :
